@@ -13,7 +13,18 @@ package main
 //	                        document) on the value Parse RETURNED (1/0, "-" when P≠1)
 //	                   VI = independent validator on the input instance J (1/0)
 //
-// The property on the implementation alone: P=1 ⇒ VR=1 (sound), VI=1 ⇒ P=1 (complete), wf=1.
+//	c07 hdoc <K> <OPTS> <S>      the K-th conversion of ONE LIVE schema instance (K ≥ 2, or K = 1 with a
+//	c07 hinst <K> <OPTS> <S> <J> non-default option set), made after conversions of other schemas, of the
+//	                   instance's children / parents / siblings, and with other option sets in between.
+//	                   OPTS = io=…,unrep=…,reused=…,cycles=…,target=…,meta=…,dup=0|1 (dup: one live instance
+//	                   occurs twice inside S).  Observations as for doc / inst; P is the verdict of the LIVE
+//	                   instance that has just been converted.  The document is compared after inlining
+//	                   `{"$ref":"#/$defs/X"}` nodes (IDs from the metadata registry, reused:"ref"); wf, VR and VI
+//	                   are computed on the document as emitted.
+//
+// The property on the implementation alone: P=1 ⇒ VR=1 (sound), VI=1 ⇒ P=1 (complete), wf=1; and the
+// document is a function of (schema, options): every conversion of one instance under one option set
+// yields the document of the first such conversion (checked in vlib/c07.py).
 
 import (
 	"bytes"
@@ -26,6 +37,7 @@ import (
 
 	"github.com/kaptinlin/gozod"
 	"github.com/kaptinlin/gozod/core"
+	gzjs "github.com/kaptinlin/gozod/jsonschema"
 	lib "github.com/kaptinlin/jsonschema"
 
 	"verifharness/hx"
@@ -155,19 +167,114 @@ func refsResolve(root any) bool {
 }
 
 type compiled struct {
-	doc   string // canonical
+	doc   string // canonical, $ref nodes inlined
 	raw   []byte
 	wf    bool
 	v     *lib.Schema
 	err   string
-	real  core.ZodSchema
 	panic string
 }
 
-func convertReal(s *Sch) (c compiled) {
+// inlineRefs: replace every node that is exactly {"$ref":"#/$defs/X"} by (the inlined) definition X and
+// drop the root's $defs.  Semantics-preserving for non-recursive references; anything else is left alone.
+func inlineRefs(root any) any {
+	m, ok := root.(map[string]any)
+	if !ok {
+		return root
+	}
+	defs, _ := m["$defs"].(map[string]any)
+	if defs == nil {
+		return root
+	}
+	var walk func(v any, fuel int) any
+	walk = func(v any, fuel int) any {
+		switch x := v.(type) {
+		case []any:
+			out := make([]any, len(x))
+			for i, e := range x {
+				out[i] = walk(e, fuel)
+			}
+			return out
+		case map[string]any:
+			if r, has := x["$ref"].(string); has && len(x) == 1 && strings.HasPrefix(r, "#/$defs/") && fuel > 0 {
+				if d, ok := defs[strings.TrimPrefix(r, "#/$defs/")]; ok {
+					return walk(d, fuel-1)
+				}
+			}
+			out := make(map[string]any, len(x))
+			for k, e := range x {
+				if k == "const" || k == "enum" || k == "default" || k == "examples" {
+					out[k] = e
+					continue
+				}
+				out[k] = walk(e, fuel)
+			}
+			return out
+		}
+		return v
+	}
+	top := make(map[string]any, len(m))
+	for k, e := range m {
+		if k != "$defs" {
+			top[k] = e
+		}
+	}
+	return walk(top, 40)
+}
+
+// Opt: one option set of ToJSONSchema.
+type Opt struct{ IO, Unrep, Reused, Cycles, Target, Meta string }
+
+var defaultOpt = Opt{"-", "-", "-", "-", "-", "global"}
+
+func (o Opt) token(dup bool) string {
+	return "io=" + o.IO + ",unrep=" + o.Unrep + ",reused=" + o.Reused + ",cycles=" + o.Cycles + ",target=" + o.Target + ",meta=" + o.Meta + ",dup=" + b01(dup)
+}
+
+func dash(s string) string {
+	if s == "-" {
+		return ""
+	}
+	return s
+}
+
+func (o Opt) real() []gzjs.Options {
+	if o == defaultOpt {
+		return nil // the zero-argument call
+	}
+	ro := gzjs.Options{IO: dash(o.IO), Unrepresentable: dash(o.Unrep), Reused: dash(o.Reused), Cycles: dash(o.Cycles), Target: dash(o.Target)}
+	if o.Meta == "private" {
+		ro.Metadata = core.NewRegistry[core.GlobalMeta]() // an empty private registry: no schema is named
+	}
+	return []gzjs.Options{ro}
+}
+
+func (g *gen) randomOpt() Opt {
+	o := defaultOpt
+	if g.r.Chance(35) {
+		o.IO = hx.Pick(g.r, []string{"input", "output"})
+	}
+	if g.r.Chance(30) {
+		o.Unrep = hx.Pick(g.r, []string{"any", "throw"})
+	}
+	if g.r.Chance(40) {
+		o.Reused = hx.Pick(g.r, []string{"ref", "ref", "inline"})
+	}
+	if g.r.Chance(20) {
+		o.Cycles = hx.Pick(g.r, []string{"throw", "ref"})
+	}
+	if g.r.Chance(25) {
+		o.Target = hx.Pick(g.r, []string{"draft-07", "draft-2020-12"})
+	}
+	if g.r.Chance(30) {
+		o.Meta = "private"
+	}
+	return o
+}
+
+func convertReal(real core.ZodSchema, o Opt) (c compiled) {
 	c.panic = hx.Safely(func() {
-		c.real = build(s)
-		js, err := gozod.ToJSONSchema(c.real)
+		js, err := gozod.ToJSONSchema(real, o.real()...)
 		if err != nil {
 			c.err = "error"
 			return
@@ -178,12 +285,14 @@ func convertReal(s *Sch) (c compiled) {
 			return
 		}
 		c.raw = raw
-		doc, tree, err := canonBytes(raw)
+		_, tree, err := canonBytes(raw)
 		if err != nil {
 			c.err = "decode-error"
 			return
 		}
-		c.doc = doc
+		var b strings.Builder
+		canon(inlineRefs(tree), &b)
+		c.doc = b.String()
 		v, err := lib.NewCompiler().Compile(raw)
 		c.wf = err == nil && refsResolve(tree)
 		if err == nil {
@@ -197,13 +306,14 @@ func b01(b bool) string { return hx.B01(b) }
 
 var panics int
 
-func runInst(s *Sch, c *compiled, j *J) string {
+// runInst: parse with `real` (a fresh build for the first conversion, the live converted instance for
+// later ones), validate the returned value and the input against the compiled document.
+func runInst(s *Sch, real core.ZodSchema, c *compiled, j *J) string {
 	var p, vr, vi string
 	var ret any
 	var perr error
 	pm := hx.Safely(func() {
-		// a fresh schema for Parse: conversion writes into the converted schema's Bag (C12's business)
-		ret, perr = build(s).ParseAny(embed(s, j))
+		ret, perr = real.ParseAny(embed(s, j))
 	})
 	switch {
 	case pm != "":
@@ -234,6 +344,130 @@ func runInst(s *Sch, c *compiled, j *J) string {
 	return p + " " + vr + " " + vi
 }
 
+// live: one schema instance and its conversion history.
+type live struct {
+	s      *Sch
+	text   string
+	real   core.ZodSchema
+	dup    bool
+	insts  []*J
+	convs  []string        // option tokens of the conversions made so far, in order
+	judged map[string]bool // emitted documents whose whole instance set has been judged
+	kids   []*live         // earlier top-level schemas embedded in this one (same live instances)
+}
+
+// hasDup: one AST node (= one live instance) occurs twice inside s.
+func hasDup(s *Sch) bool {
+	seen := map[*Sch]bool{}
+	dup := false
+	var walk func(s *Sch)
+	walk = func(s *Sch) {
+		if s == nil || dup {
+			return
+		}
+		if seen[s] {
+			dup = true
+			return
+		}
+		seen[s] = true
+		walk(s.Elem)
+		walk(s.Key)
+		walk(s.Catch)
+		walk(s.Rest)
+		for _, f := range s.Fields {
+			walk(f.S)
+		}
+		for _, it := range s.Items {
+			walk(it)
+		}
+	}
+	walk(s)
+	return dup
+}
+
+type runner struct {
+	out     *hx.Out
+	g       *gen
+	bld     *builder
+	clock   int
+	rawDocs *os.File
+}
+
+// convert: one ToJSONSchema call on the live instance, judged like every other.
+func (r *runner) convert(lv *live, o Opt) {
+	r.clock++
+	k := len(lv.convs) + 1
+	first := k == 1 && o == defaultOpt
+	tok := o.token(lv.dup)
+	var docOp, instOp, note string
+	if first {
+		docOp, instOp = "c07 doc "+lv.text, "c07 inst "+lv.text+" "
+	} else {
+		docOp, instOp = fmt.Sprintf("c07 hdoc %d %s %s", k, tok, lv.text), fmt.Sprintf("c07 hinst %d %s %s ", k, tok, lv.text)
+		var prior []string
+		for _, p := range lv.convs {
+			if p == defaultOpt.token(lv.dup) {
+				p = "default"
+			}
+			prior = append(prior, p)
+		}
+		if len(prior) > 5 {
+			prior = append([]string{"…"}, prior[len(prior)-5:]...)
+		}
+		note = fmt.Sprintf(" #call %d of the run; earlier conversions of this instance: [%s]", r.clock, strings.Join(prior, " ; "))
+		r.out.Count(fmt.Sprintf("history:conversion-%d", min(k, 6)))
+		if o != defaultOpt {
+			r.out.Count("history:non-default-options")
+		}
+	}
+	lv.convs = append(lv.convs, tok)
+	c := convertReal(lv.real, o)
+	switch {
+	case c.panic != "":
+		r.out.Emit(docOp+note, "panic")
+		return
+	case c.err != "":
+		r.out.Emit(docOp+note, c.err)
+		return
+	}
+	r.out.Emit(docOp+note, b01(c.wf)+" "+c.doc)
+	if r.rawDocs != nil {
+		fmt.Fprintf(r.rawDocs, "%s\t%s\n", lv.text, c.raw)
+	}
+	if c.v == nil {
+		return
+	}
+	insts := lv.insts
+	parser := lv.real
+	if first {
+		// a fresh schema for the first Parse: what a caller who never converted anything observes
+		parser = build(lv.s)
+	} else if lv.judged[string(c.raw)] {
+		// this very document has been judged on the whole instance set: a rotating sample suffices
+		n := 6
+		if len(insts) < n {
+			n = len(insts)
+		}
+		rot := make([]*J, 0, n)
+		for i := 0; i < n; i++ {
+			rot = append(rot, insts[(k*5+i)%len(insts)])
+		}
+		insts = rot
+	}
+	lv.judged[string(c.raw)] = true
+	seenI := map[string]bool{}
+	for _, j := range insts {
+		jt := j.String()
+		if seenI[jt] {
+			continue
+		}
+		seenI[jt] = true
+		obs := runInst(lv.s, parser, &c, j)
+		r.out.Count("verdict:" + obs)
+		r.out.Emit(instOp+jt+note, obs)
+	}
+}
+
 func runC07(cfg hx.Config) error {
 	out, err := hx.NewOut(cfg.OutDir)
 	if err != nil {
@@ -243,55 +477,88 @@ func runC07(cfg hx.Config) error {
 	g := &gen{r: rng, thorough: cfg.Thorough()}
 	nSchemas := 700
 	if cfg.Thorough() {
-		nSchemas = 12000
+		nSchemas = 9000
 	}
-	schemas := append([]*Sch{}, corpusSchemas()...)
-	for i := 0; i < nSchemas; i++ {
-		schemas = append(schemas, g.schema(3, true))
-	}
+	r := &runner{out: out, g: g, bld: newBuilder()}
 	// thorough tier: the raw emitted documents, one per line, for the Python metaschema check
-	var rawDocs *os.File
 	if p := os.Getenv("C07_RAWDOCS"); p != "" {
-		rawDocs, _ = os.Create(p)
-		defer rawDocs.Close()
+		r.rawDocs, _ = os.Create(p)
+		defer r.rawDocs.Close()
 	}
+	corpus := corpusSchemas()
 	seen := map[string]bool{}
-	for _, s := range schemas {
+	liveOf := map[*Sch]*live{}
+	var lives []*live
+	for i := 0; i < len(corpus)+nSchemas; i++ {
+		var s *Sch
+		g.used = nil
+		if i < len(corpus) {
+			s = corpus[i]
+		} else {
+			s = g.schema(3, true)
+		}
 		text := s.String()
 		if seen[text] {
 			continue
 		}
 		seen[text] = true
-		c := convertReal(s)
-		out.Count("schema:" + s.K)
-		g.countFeatures(out, s)
-		switch {
-		case c.panic != "":
+		g.pool = append(g.pool, s)
+		lv := &live{s: s, text: text, dup: hasDup(s), judged: map[string]bool{}}
+		for _, u := range g.used {
+			if k := liveOf[u]; k != nil {
+				lv.kids = append(lv.kids, k)
+			}
+		}
+		if pm := hx.Safely(func() { lv.real = r.bld.get(s) }); pm != "" {
 			out.Emit("c07 doc "+text, "panic")
 			continue
-		case c.err != "":
-			out.Emit("c07 doc "+text, c.err)
-			continue
 		}
-		out.Emit("c07 doc "+text, b01(c.wf)+" "+c.doc)
-		if rawDocs != nil {
-			fmt.Fprintf(rawDocs, "%s\t%s\n", text, c.raw)
+		lv.insts = g.instances(s)
+		liveOf[s] = lv
+		lives = append(lives, lv)
+		out.Count("schema:" + s.K)
+		g.countFeatures(out, s)
+		if lv.dup {
+			out.Count("history:instance-shared-inside-schema")
 		}
-		if c.v == nil {
-			continue
+		if len(lv.kids) > 0 {
+			out.Count("history:embeds-earlier-top-level-instance")
 		}
-		insts := g.instances(s)
-		seenI := map[string]bool{}
-		for _, j := range insts {
-			jt := j.String()
-			if seenI[jt] {
-				continue
+		// conversion 1, right after construction, default options
+		r.convert(lv, defaultOpt)
+		// the same instance again at once
+		if rng.Chance(30) {
+			r.convert(lv, defaultOpt)
+		}
+		// a child that was converted on its own before, again after its parent
+		for _, kid := range lv.kids {
+			if rng.Chance(60) {
+				r.convert(kid, defaultOpt)
 			}
-			seenI[jt] = true
-			obs := runInst(s, &c, j)
-			out.Count("verdict:" + obs)
-			out.Emit("c07 inst "+text+" "+jt, obs)
+		}
+		// earlier schemas again, after everything converted in between, under some option set
+		for n := 0; n < 2 && len(lives) > 1; n++ {
+			var old *live
+			if rng.Bool() {
+				old = lives[len(lives)-1-rng.Intn(min(8, len(lives)))]
+			} else {
+				old = lives[rng.Intn(len(lives))]
+			}
+			if rng.Chance(45) {
+				r.convert(old, defaultOpt)
+			} else {
+				r.convert(old, g.randomOpt())
+			}
 		}
 	}
-	return out.Close(map[string]any{"schemas": len(seen), "parse_panics": panics})
+	// closing sweep: every instance is converted at least three times, the last time with default options
+	for _, lv := range lives {
+		if rng.Chance(50) {
+			r.convert(lv, g.randomOpt())
+		}
+		for len(lv.convs) < 3 {
+			r.convert(lv, defaultOpt)
+		}
+	}
+	return out.Close(map[string]any{"schemas": len(seen), "parse_panics": panics, "conversions": r.clock})
 }
